@@ -18,6 +18,7 @@ package xpkg
 
 import (
 	"compress/gzip"
+	"errors"
 	"io"
 )
 
@@ -62,6 +63,10 @@ type teeReadCloser struct {
 	w io.WriteCloser
 	r io.ReadCloser
 	t io.Reader
+
+	// err is the first error other than io.EOF returned by the underlying
+	// reader. It is propagated to the writer when the tee is closed.
+	err error
 }
 
 // TeeReadCloser constructs a teeReadCloser from the passed reader and writer.
@@ -75,11 +80,21 @@ func TeeReadCloser(r io.ReadCloser, w io.WriteCloser) io.ReadCloser {
 
 // Read calls the underlying TeeReader Read method.
 func (t *teeReadCloser) Read(b []byte) (int, error) {
-	return t.t.Read(b)
+	n, err := t.t.Read(b)
+	if err != nil && !errors.Is(err, io.EOF) && t.err == nil {
+		t.err = err
+	}
+	return n, err
 }
 
 // Close closes the underlying ReadCloser, then the Writer for the TeeReader.
 func (t *teeReadCloser) Close() error {
+	// If reading failed the writer has only seen part of the stream. Tell it
+	// so, rather than signalling a clean end of stream, when it can be told.
+	if cw, ok := t.w.(interface{ CloseWithError(err error) error }); ok && t.err != nil {
+		_ = cw.CloseWithError(t.err)
+		return t.r.Close()
+	}
 	if err := t.r.Close(); err != nil {
 		_ = t.w.Close()
 		return err
